@@ -152,6 +152,10 @@ SEQ_PARAM_NAMES_OF = {
 }
 
 
+# parameters that are vectors of sequence numbers (SACK edges)
+SEQ_VEC_PARAMS = {"Tins::TCPIP::AckTracker::process_sack(": [0]}
+
+
 def r2(db, rep, files=None, exceptions=None, rule="R2-serial"):
     files = files or SEQ_FILES
     exceptions = exceptions if exceptions is not None else SEQ_EXCEPTIONS
@@ -179,6 +183,12 @@ def r2(db, rep, files=None, exceptions=None, rule="R2-serial"):
         if in_helper:
             for p in f["params"]:
                 tainted.add(p["var"])
+        tainted_vecs = set()
+        for pref, idxs in SEQ_VEC_PARAMS.items():
+            if f["id"].startswith(pref):
+                for i in idxs:
+                    if i < len(f["params"]):
+                        tainted_vecs.add(f["params"][i]["var"])
 
         def is_seq(e, depth=0):
             e = strip(e)
@@ -200,6 +210,9 @@ def r2(db, rep, files=None, exceptions=None, rule="R2-serial"):
                         if tx and "pair<const unsigned int" in tx.get("s", ""):
                             return True
                 return False
+            if k == "CXXOperatorCallExpr" and e.get("op") == "[]" and len(e.get("c", [])) == 3:
+                o = strip(e["c"][1])
+                return o["k"] == "DeclRefExpr" and o.get("var") in tainted_vecs
             if k in ("CXXMemberCallExpr", "CallExpr"):
                 return e.get("callee") in SEQ_CALLS
             if k == "BinaryOperator" and e["op"] in ("+", "-"):
